@@ -29,4 +29,9 @@ m(E,"bspline: x and y swapped in the control points", U, "cv = numpy.stack((xs, 
 m(E,"cumulative from the pre-spline widths when lengths agree", K, "    dpore_widths = numpy.ediff1d(pore_widths, to_begin=pore_widths[0])\n    pore_vol_cum", "    if len(pore_widths) != len(result.x):\n        dpore_widths = numpy.ediff1d(pore_widths, to_begin=pore_widths[0])\n    else:\n        dpore_widths = numpy.ediff1d(numpy.asarray(list(kernel.keys()), dtype='float64'), to_begin=0)\n    pore_vol_cum")
 m(E,"baseline shift before the limits are applied", K, "    # select the maximum and minimum of the points and the pressure associated\n    minimum = 0", "    if loading.min() < 0:\n        loading = loading - loading.min()\n    # select the maximum and minimum of the points and the pressure associated\n    minimum = 0")
 m(E,"EQ cumulative product in the other order", K, "numpy.cumsum(pore_dist * dpore_widths)", "numpy.cumsum(dpore_widths * pore_dist)", expect="silent")
+m(E,"EQ bounds built in a loop", K, "    bounds = [(0, None) for pore in pore_widths]\n", "    bounds = []\n    for pore in pore_widths:\n        bounds.append((0, None))\n", expect="silent")
+m(E,"EQ bounds as optimize.Bounds(0, inf)", K, "    bounds = [(0, None) for pore in pore_widths]", "    bounds = optimize.Bounds(0, numpy.inf)", expect="silent")
+m(E,"EQ bounds by list multiplication", K, "    bounds = [(0, None) for pore in pore_widths]", "    bounds = [(0, None)] * len(pore_widths)", expect="silent")
+m(E,"EQ first differences via numpy.diff(prepend=0)", K, "    dpore_widths = numpy.ediff1d(pore_widths, to_begin=pore_widths[0])\n    pore_vol_cum", "    dpore_widths = numpy.diff(pore_widths, prepend=0)\n    pore_vol_cum", expect="silent")
+m(E,"EQ objective with operators", K, "        return numpy.square(  # -> square the difference\n            numpy.subtract(  # -> between calculated and isotherm\n                kernel_loading(pore_dist),\n                loading)).sum(axis=0)  # -> then sum the squares together", "        return numpy.sum((loading - kernel_loading(pore_dist))**2)", expect="silent")
 build("C18", E)
